@@ -104,6 +104,11 @@ mod ffi {
         pub fn set_step(&mut self, f: impl Fn(i32) -> i32 + 'static) { self.step = Some(Box::new(f)); }
         pub fn clear_step(&mut self) { self.step = None; }
         pub fn advance(&mut self) -> i32 { if let Some(f) = &self.step { self.v = f(self.v); } self.v }
+        // a callback next to a validated string: when the string is refused nothing may be left behind
+        // a borrowed opaque in the error arm
+        pub fn find<'a>(&'a self, ok: bool) -> Result<i32, &'a Counter> { if ok { Ok(self.v) } else { Err(self) } }
+        pub fn visit(&self, f: impl Fn(i32) -> i32, label: &str) -> i32 { f(label.len() as i32) }
+        pub fn visit_after(&self, label: &str, f: impl Fn(i32) -> i32) -> i32 { f(label.len() as i32) }
     }
     // discriminants neither ascending nor gap-free
     pub enum Level { Off = 0, High = 5, Low = 2 }
@@ -158,6 +163,22 @@ int main() {
     std::printf("advance %d\n", c->advance());
   }
   std::printf("token after drop %ld\n", (long)token.use_count());
+  {
+    auto c = Counter::new_();
+    std::string_view bad("a\xff" "b", 3);
+    auto r1 = c->visit([token](int32_t x) { return x + *token; }, "four");
+    auto r2 = c->visit([token](int32_t x) { return x + *token; }, bad);
+    auto r3 = c->visit_after(bad, [token](int32_t x) { return x + *token; });
+    auto r4 = c->visit_after("sixsix", [token](int32_t x) { return x + *token; });
+    std::printf("visit %d %d %d %d\n", r1.is_ok() ? std::move(r1).ok().value() : -1, r2.is_ok() ? 1 : 0, r3.is_ok() ? 1 : 0, r4.is_ok() ? std::move(r4).ok().value() : -1);
+    std::printf("token after refused strings %ld\n", (long)token.use_count());
+    auto fe = c->find(false);
+    auto fo = c->find(true);
+    bool fe_err = fe.is_err(), fo_ok = fo.is_ok();
+    auto fee = std::move(fe).err();
+    auto foo = std::move(fo).ok();
+    std::printf("find %d %d %d %d\n", (int)fe_err, (int)fo_ok, fee.has_value() ? (int)(&fee.value().get() == c.get()) : -1, foo.has_value() ? foo.value() : -1);
+  }
   int vals[3] = {1, 2, 3};
   for (int a : vals) {
     auto x = Num::new_(a); auto y = Num::new_(2);
@@ -178,7 +199,7 @@ int main() {
 }
 "#;
 
-const SPECIAL_EXPECTED: &str = "level 0 0 0\nlevel 1 5 5\nlevel 2 2 2\nsign 0 1 1\nsign 1 -3 -3\nsign 2 0 0\nlevel codes 0 5 2 -3\nlevel maybe 5 0\ntoken after set 2\nadvance 8 15\ntoken after clear 1\nadvance 30\ntoken after drop 1\ncmp 1 2: -1 == 0 != 1 < 1 <= 1 > 0 >= 0\ncmp 2 2: 0 == 1 != 0 < 0 <= 1 > 0 >= 1\ncmp 3 2: 1 == 0 != 1 < 0 <= 0 > 1 >= 1\nvalue 67305985\nvalue 168496141\nat 0 some(13)\nat 1 some(12)\nat 2 some(11)\nat 3 some(10)\nat 4 none\nstr num(168496141)\narith 9,15 5,9 14,36 3,4\n+= 9,15\n-= 5,9\n*= 10,27\n/= 5,9\n";
+const SPECIAL_EXPECTED: &str = "level 0 0 0\nlevel 1 5 5\nlevel 2 2 2\nsign 0 1 1\nsign 1 -3 -3\nsign 2 0 0\nlevel codes 0 5 2 -3\nlevel maybe 5 0\ntoken after set 2\nadvance 8 15\ntoken after clear 1\nadvance 30\ntoken after drop 1\nvisit 11 0 0 13\ntoken after refused strings 1\nfind 1 1 1 1\ncmp 1 2: -1 == 0 != 1 < 1 <= 1 > 0 >= 0\ncmp 2 2: 0 == 1 != 0 < 0 <= 1 > 0 >= 1\ncmp 3 2: 1 == 0 != 1 < 0 <= 0 > 1 >= 1\nvalue 67305985\nvalue 168496141\nat 0 some(13)\nat 1 some(12)\nat 2 some(11)\nat 3 some(10)\nat 4 none\nstr num(168496141)\narith 9,15 5,9 14,36 3,4\n+= 9,15\n-= 5,9\n*= 10,27\n/= 5,9\n";
 
 /// special methods of the C++ API (comparison operators, accessors, indexer, stringifier, arithmetic and compound
 /// assignment): a fixed module with real bodies, called through the generated operators
